@@ -84,7 +84,7 @@ func c05SpecAccept(wire []byte, rx c05Rx) bool {
 }
 
 func runC05(c *core.Ctx) {
-	n := c.N(3000, 30000)
+	n := c.N(3000, 400000)
 	for i := int64(0); i < n; i++ {
 		if !c.Mine("exchange", i) {
 			continue
